@@ -160,6 +160,23 @@ func (f *Frame) binop(x *ssa.BinOp, st *State, reach Term) Value {
 			return f.vc.define("sub", T(sInt, "%s", wrapInt(fmt.Sprintf("(- %s %s)", a.S, b.S), signed)))
 		case token.MUL:
 			r := T(sInt, "(* %s %s)", a.S, b.S)
+			if !isNumeral(a.S) && !isNumeral(b.S) {
+				// a product of two variables would make every query that mentions it nonlinear:
+				// it is named by a constant that is only known by the facts below (a sound abstraction)
+				p := f.vc.freshConst("mul", sInt)
+				for _, ax := range []string{
+					"(=> (or (= %[1]s 0) (= %[2]s 0)) (= %[3]s 0))",
+					"(=> (= %[1]s 1) (= %[3]s %[2]s))",
+					"(=> (= %[2]s 1) (= %[3]s %[1]s))",
+					"(=> (and (>= %[1]s 1) (>= %[2]s 1)) (and (>= %[3]s %[1]s) (>= %[3]s %[2]s)))",
+					"(=> (and (<= %[1]s (- 1)) (<= %[2]s (- 1))) (and (>= %[3]s (- %[1]s)) (>= %[3]s (- %[2]s))))",
+					"(=> (and (>= %[1]s 1) (<= %[2]s (- 1))) (and (<= %[3]s (- %[1]s)) (<= %[3]s %[2]s)))",
+					"(=> (and (<= %[1]s (- 1)) (>= %[2]s 1)) (and (<= %[3]s %[1]s) (<= %[3]s (- %[2]s))))",
+				} {
+					f.vc.assumeOwned(p, T(sBool, ax, a.S, b.S, p.S))
+				}
+				r = p
+			}
 			lo, hi := minI64, maxI64
 			if !signed {
 				lo, hi = "0", "18446744073709551615"
@@ -188,6 +205,20 @@ func (f *Frame) binop(x *ssa.BinOp, st *State, reach Term) Value {
 	f.vc.note("%s: binary %s on %s (%s) not modelled", funcKey(f.fn), op, t, a.Sort)
 	_ = rs
 	return f.havocValue(x.Type(), x.Name())
+}
+
+// isNumeral: a (possibly negated) integer literal.
+func isNumeral(s string) bool {
+	s = strings.TrimSuffix(strings.TrimPrefix(s, "(- "), ")")
+	if s == "" {
+		return false
+	}
+	for _, c := range s {
+		if c < '0' || c > '9' {
+			return false
+		}
+	}
+	return true
 }
 
 func (f *Frame) safetyTagged(kind, desc string, reach Term, goal Term, p token.Pos) {
@@ -732,8 +763,15 @@ func (f *Frame) execSlice(x *ssa.Slice, st *State, reach Term) Value {
 		es := f.vc.sorts.sortOf(arr.Elem())
 		ts := f.vc.sorts.sortOf(x.Type())
 		if ts == sSl {
-			f.vc.note("%s: slice of array on the heap not modelled", funcKey(f.fn))
-			return f.havocValue(x.Type(), "arrsl")
+			// a heap slice over an array (the temporaries of variadic calls and composite
+			// literals): the slice gets its own backing store holding the array's content;
+			// later writes through one are not seen through the other (noted)
+			f.vc.note("%s: slice of an array: the slice is a copy of the array's content (no aliasing with the array)", funcKey(f.fn))
+			r := f.allocRef(st, "arrsl")
+			key := f.compKey("E:", sortTag(es), es)
+			old := st.get(key)
+			st.set(key, f.vc.storeTerm(key, old, r, content))
+			return f.vc.define("sl", T(sSl, "(mk.Sl %s %s (- %s %s) (- %d %s))", r.S, lo.S, hi.S, lo.S, arr.Len(), lo.S))
 		}
 		fn := "arr.seq." + sortTag(es)
 		f.vc.declareFunOnce(fn, []string{content.Sort, sInt}, ts)
@@ -876,6 +914,14 @@ func (f *Frame) execNext(x *ssa.Next, st *State) {
 	var kv, vv Value = k, nil
 	val := T(vs, "(select (select %s %s) %s)", st.get(vk).S, m.S, k.S)
 	f.vc.assume(tImp(ok, T(sBool, "(and (not (= %s 0)) (select (select %s %s) %s))", m.S, st.get(hk).S, m.S, k.S)))
+	// the keys visited so far (ghost): each key is yielded at most once, and when the
+	// iteration ends every key that is (still) in the map has been visited
+	rk := f.rangeKey(rng, ks)
+	seen := st.get(rk)
+	f.vc.assume(tImp(ok, T(sBool, "(not (select %s %s))", seen.S, k.S)))
+	f.vc.assume(tImp(tNot(ok), T(sBool, "(forall ((k!q %s)) (! (=> (and (not (= %s 0)) (select (select %s %s) k!q)) (select %s k!q)) :pattern ((select (select %s %s) k!q)) :pattern ((select %s k!q))))",
+		ks, m.S, st.get(hk).S, m.S, seen.S, st.get(hk).S, m.S, seen.S)))
+	st.set(rk, f.vc.define("seen", tIte(ok, T(seen.Sort, "(store %s %s true)", seen.S, k.S), seen)))
 	vdef := f.vc.define("next.v", val)
 	f.readFacts(vdef, mt.Elem(), st)
 	vv = vdef
@@ -886,6 +932,13 @@ func (f *Frame) execNext(x *ssa.Next, st *State) {
 		vv = Term{"0", sInt}
 	}
 	f.vals[x] = Tuple{ok, kv, vv}
+}
+
+// rangeKey is the state component holding the set of keys a map range has visited.
+func (f *Frame) rangeKey(rng *ssa.Range, keySort string) string {
+	key := fmt.Sprintf("R:%p:%s", f, rng.Name())
+	f.vc.compSrt[key] = fmt.Sprintf("(Array %s Bool)", keySort)
+	return key
 }
 
 func isInvalid(t types.Type) bool {
